@@ -145,3 +145,23 @@ Definition check_hubid (c : hid_case) : codes :=
   (if list_eqb N.eqb (hi_log c) [1; 2; 3] then [] else [1]) ++
   (if before_in 2 3 (hi_log c) then [] else [V_HUB_ID_AFTER_SETUP]) ++
   (if Nat.eqb (length (filter (fun x => N.eqb x 2 || N.eqb x 4) (hi_log c))) 1 then [] else [V_HUB_ID_NOT_ONCE]).
+
+(* ---- C06 over the real transport: two ShipConnections on real websocket connections, bursts of
+   SPINE datagrams in both directions against a slow reading application.  On a connection that
+   stays open the reader's list equals the writer's; otherwise it is a prefix of it. *)
+Record e2e_case := mkE2E { ee_open : bool; ee_ab_sent : list N; ee_ab_got : list N;
+                           ee_ba_sent : list N; ee_ba_got : list N }.
+
+Fixpoint is_prefix (p l : list N) : bool :=
+  match p, l with
+  | [], _ => true
+  | x :: p', y :: l' => N.eqb x y && is_prefix p' l'
+  | _ :: _, [] => false
+  end.
+
+Definition V_E2E_NOT_EXACTLY_ONCE_IN_ORDER : N := 178.
+
+Definition check_e2e (c : e2e_case) : codes :=
+  let ok sent got := if ee_open c then list_eqb N.eqb sent got else is_prefix got sent in
+  if ok (ee_ab_sent c) (ee_ab_got c) && ok (ee_ba_sent c) (ee_ba_got c) then []
+  else [V_E2E_NOT_EXACTLY_ONCE_IN_ORDER].
